@@ -4,7 +4,11 @@ import (
 	"bytes"
 	"encoding/json"
 	"fmt"
+	"io"
+	"os"
+	"path/filepath"
 	"strings"
+	"sync/atomic"
 
 	"verif/mb"
 	"verif/vf"
@@ -58,9 +62,12 @@ func binAlphabet() [][]byte {
 
 type c01Case struct {
 	Spec mb.Msg `json:"spec"`
+	Path int    `json:"path,omitempty"` // index into c01Paths
 }
 
-func c01Exec(r *vf.Run, spec mb.Msg) []finding {
+var c01Paths = []string{"WriteTo", "WriteToFile(existing, longer file)", "NewReader", "Write", "WriteToTempFile"}
+
+func c01Exec(r *vf.Run, spec mb.Msg, path int) []finding {
 	m, err := mb.Build(spec, nil)
 	if err != nil {
 		r.HarnessError("C01 build: %v (%s)", err, spec.Describe())
@@ -68,15 +75,57 @@ func c01Exec(r *vf.Run, spec mb.Msg) []finding {
 	}
 	var buf bytes.Buffer
 	var werr error
-	pan, pw := vf.Guard(func() { _, werr = m.WriteTo(&buf) })
+	pan, pw := vf.Guard(func() {
+		switch path {
+		case 1:
+			// documented: an existing file is overwritten
+			dir := filepath.Join(os.Getenv("VERIF_WORK"), fmt.Sprintf("c01-%d", os.Getpid()))
+			if os.Getenv("VERIF_WORK") == "" {
+				dir = filepath.Join(os.TempDir(), fmt.Sprintf("verif-c01-%d", os.Getpid()))
+			}
+			_ = os.MkdirAll(dir, 0o755)
+			p := filepath.Join(dir, fmt.Sprintf("out-%d.eml", atomic.AddInt64(&c01FileSeq, 1)))
+			defer os.Remove(p)
+			old := bytes.Repeat([]byte("X-Old-Content: this file existed before and was much longer than the message\r\n"), 6000)
+			if werr = os.WriteFile(p, old, 0o644); werr != nil {
+				return
+			}
+			if werr = m.WriteToFile(p); werr == nil {
+				var b []byte
+				b, werr = os.ReadFile(p)
+				buf.Write(b)
+			}
+		case 2:
+			var b []byte
+			b, werr = io.ReadAll(m.NewReader())
+			buf.Write(b)
+		case 3:
+			_, werr = m.Write(&buf)
+		case 4:
+			var p string
+			p, werr = m.WriteToTempFile()
+			if werr == nil {
+				var b []byte
+				b, werr = os.ReadFile(p)
+				buf.Write(b)
+			}
+			if p != "" {
+				_ = os.Remove(p)
+			}
+		default:
+			_, werr = m.WriteTo(&buf)
+		}
+	})
 	if pan {
-		return []finding{{"panic/" + vf.PanicSite(pw), "WriteTo panicked: " + firstLine(pw)}}
+		return []finding{{"panic/" + vf.PanicSite(pw), c01Paths[path] + " panicked: " + firstLine(pw)}}
 	}
 	if werr != nil {
-		return []finding{{"render-error", fmt.Sprintf("WriteTo failed: %v", werr)}}
+		return []finding{{"render-error", fmt.Sprintf("%s failed: %v", c01Paths[path], werr)}}
 	}
 	return checkRendered(spec, buf.Bytes(), nil)
 }
+
+var c01FileSeq int64
 
 var c01FileNames = []string{"a.bin", "pic.png", "notes.txt", "with space.dat", "ünï.bin", "noext"}
 
@@ -284,14 +333,43 @@ func init() {
 	vf.Register(&vf.Check{
 		ID: "C01", Title: "rendered MIME carries exactly the content the caller supplied",
 		Run: func(r *vf.Run) {
-			r.SetRule("builder programs in canonical order: 0..3 body parts × 0..2 embeds × 0..2 attachments × message encoding {QP, base64, 8bit} × file encoding {default base64, 8bit, QP via File.Enc} × per-part encodings/descriptions/content types/fixed boundary, contents rotated through a 25-entry text alphabet and an 18-entry binary alphabet (wrap points 57/58/75/76/77, dots, '=', boundary-like lines, bare CR/LF, all 256 byte values, 3000-byte binary); plus every single byte value in every encoding; plus files supplied through AttachReader/EmbedReader (memory recycled by the caller afterwards; one scratch buffer refilled per file) and Attach/EmbedReadSeeker; each rendering is re-read by the harness' own MIME reader and compared leaf by leaf; distinct by program")
+			r.SetRule("builder programs in canonical order: 0..3 body parts × 0..2 embeds × 0..2 attachments × message encoding {QP, base64, 8bit} × file encoding {default base64, 8bit, QP via File.Enc} × per-part encodings/descriptions/content types/fixed boundary, contents rotated through a 25-entry text alphabet and an 18-entry binary alphabet (wrap points 57/58/75/76/77, dots, '=', boundary-like lines, bare CR/LF, all 256 byte values, 3000-byte binary); plus every single byte value in every encoding; plus files supplied through AttachReader/EmbedReader (memory recycled by the caller afterwards; one scratch buffer refilled per file) and Attach/EmbedReadSeeker; each program is rendered through WriteTo, WriteToFile onto an existing longer file, NewReader, Write and WriteToTempFile; each rendering is re-read by the harness' own MIME reader and compared leaf by leaf; distinct by program")
 			r.Assume("file media types without WithFileContentType are those of mime.TypeByExtension", "charset of text parts is the default UTF-8", "NUL bytes are not text")
 			specs := c01Specs(r.Thorough)
 			r.Extra("programs", len(specs))
 			r.Parallel(len(specs), "C01 programs", func(i int) {
 				spec := specs[i]
-				fs := c01Exec(r, spec)
+				fs := c01Exec(r, spec, 0)
 				b, _ := json.Marshal(spec)
+				// the other output paths: only what differs from the WriteTo verdict is reported, per path
+				big := false
+				for _, f := range append(append([]mb.File{}, spec.Attach...), spec.Embeds...) {
+					big = big || len(f.Content) > 20000
+				}
+				for path := 1; path < len(c01Paths) && !big; path++ {
+					path := path
+					have := map[string]bool{}
+					for _, f := range fs {
+						have[f.key] = true
+					}
+					r.Eval(vf.Hash(string(b), c01Paths[path]), true)
+					r.TraceValidated()
+					for _, f := range c01Exec(r, spec, path) {
+						if have[f.key] {
+							continue
+						}
+						f := f
+						key := f.key + "/only-via=" + strings.SplitN(c01Paths[path], "(", 2)[0]
+						r.Violation(key, f.what+" — output path "+c01Paths[path]+" — program: "+spec.Describe(), c01Case{spec, path}, func() string {
+							for _, x := range c01Exec(r, spec, path) {
+								if x.key == f.key {
+									return key
+								}
+							}
+							return ""
+						})
+					}
+				}
 				r.Eval(vf.Hash(string(b)), len(spec.Parts)+len(spec.Embeds)+len(spec.Attach) > 0)
 				_, shape := expectedLeaves(spec)
 				from := vf.Hash("shape", shapeClass(shape), spec.Enc)
@@ -306,8 +384,8 @@ func init() {
 				for _, f := range fs {
 					f := f
 					r.Outcome(strings.SplitN(f.key, "/", 2)[0])
-					r.Violation(f.key, f.what+" — program: "+spec.Describe(), c01Case{spec}, func() string {
-						for _, x := range c01Exec(r, spec) {
+					r.Violation(f.key, f.what+" — program: "+spec.Describe(), c01Case{spec, 0}, func() string {
+						for _, x := range c01Exec(r, spec, 0) {
 							if x.key == f.key {
 								return f.key
 							}
@@ -325,7 +403,10 @@ func init() {
 			}
 			r.Eval(1, true)
 			fmt.Printf("  program: %s\n", k.Spec.Describe())
-			for _, f := range c01Exec(r, k.Spec) {
+			for _, f := range c01Exec(r, k.Spec, k.Path) {
+				if k.Path > 0 {
+					f.key += "/only-via=" + strings.SplitN(c01Paths[k.Path], "(", 2)[0]
+				}
 				fmt.Printf("  -> %s: %s\n", f.key, f.what)
 				r.Violation(f.key, f.what, k, nil)
 			}
